@@ -130,6 +130,11 @@ func genC02(r *Rng, idx int) *C02Case {
 		g.NoCustom = true // cmd/liquid has only the standard tags and filters
 		cs.Tree = g.Nodes(scope{strs: cs.Env.Names}, 0, 6)
 		g.fixErrors(cs.Tree)
+		if r.Chance(0.08) {
+			// the page starts with what a site generator would take for YAML front matter
+			fm := []*TNode{{K: "text", S: "---\n"}, {K: "tag", S: "assign fm = " + pick(r, []string{"3", "s", `"x"`})}, {K: "text", S: "\ntitle: x\n---\n"}}
+			cs.Tree = append(fm, append(cs.Tree, &TNode{K: "obj", S: "fm"})...)
+		}
 	} else {
 		cs.Env = GenEnv(r.Fork(1), 2, 12)
 		g := NewGen(r.Fork(2), r.Range(3, 24))
